@@ -1209,7 +1209,9 @@ var statusPool = []int{200, 201, 202, 204, 400, 401, 403, 404, 405, 408, 409, 41
 var retryAfterPool = []string{"", "", "", "1", "2", "120", "0", "-5", "abc", "99999999999999999999", "9223372036", "9223372037", "3.5", "0x10", "1_0", "007", "-", "18446744073709551617", "-99999999999999999999", "5s", "٣",
 	// strconv.ParseInt's own reading (the code as written): a sign is accepted, blanks are not;
 	// an HTTP-date is not understood (not honoured: falls back to the exponential backoff)
-	"+3", "+", " 3", "3 ", "Wed, 21 Oct 2015 07:28:00 GMT"}
+	"+3", "+", " 3", "3 ", "Wed, 21 Oct 2015 07:28:00 GMT",
+	// ParseUint gives up at the point of uint64 overflow, before it sees the rest
+	"99999999999999999999x", "18446744073709551616 seconds", "9223372036854775808x"}
 
 func genBehaviour(r *common.Rand, forAuth bool, evenLat bool) behaviour {
 	b := behaviour{Kind: "S", Read: -1}
@@ -1888,6 +1890,41 @@ func genReal(r *common.Rand) *realCase {
 	return c
 }
 
+var tokenAlphabet = []behaviour{
+	{Kind: "S", Code: 200, Read: -1, Lat: 4}, {Kind: "S", Code: 503, Read: 7}, {Kind: "S", Code: 403, Read: -1}, {Kind: "TO", Read: -1, Lat: 2},
+	{Kind: "E", Err: "op-emfile", Read: 0}, {Kind: "S", Code: 429, RetryAfter: "1", Read: -1},
+}
+
+// enumTokens: a Bearer challenge after every short prefix of retryable answers, every sequence of
+// token-service answers up to maxLen, GET and POST token requests, three body kinds
+func enumTokens(t *testing.T, maxLen int) {
+	var rec func(ts []behaviour)
+	rec = func(ts []behaviour) {
+		for _, pre := range [][]behaviour{nil, {{Kind: "S", Code: 503, Read: 2}}} {
+			for _, body := range []string{"N", "R", "O"} {
+				for _, post := range []bool{false, true} {
+					c := &scriptCase{Op: "Q", MaxRetry: 2, Min: 100, Max: 1000, Tbl: []int64{50, 5000}, Dflt: 300, Cancel: -1, Body: body,
+						TokenPost: post, TokenScript: append([]behaviour(nil), ts...)}
+					if body != "N" {
+						c.Data = "0102030405"
+					}
+					c.Script = append(append([]behaviour(nil), pre...), behaviour{Kind: "S", Code: 401, Chal: 2, Read: -1},
+						behaviour{Kind: "S", Code: 502, Read: 1}, behaviour{Kind: "S", Code: 201, Read: -1})
+					scriptCaseRun(t, c)
+					run.Count("enumerated_tokens")
+				}
+			}
+		}
+		if len(ts) == maxLen {
+			return
+		}
+		for _, b := range tokenAlphabet {
+			rec(append(ts, b))
+		}
+	}
+	rec(nil)
+}
+
 // ---------------------------------------------------------------- entry point
 
 // replayCases re-runs the "cases" array of a replay/corpus file.  (Not via
@@ -1917,6 +1954,14 @@ func replayCases(t *testing.T) {
 				panic(err)
 			}
 			scriptCaseRun(t, &c)
+		case "I":
+			var c struct {
+				Input string `json:"input"`
+			}
+			if err := json.Unmarshal(js, &c); err != nil {
+				panic(err)
+			}
+			parseIntCase(c.Input)
 		case "K":
 			var c tokenCase
 			if err := json.Unmarshal(js, &c); err != nil {
@@ -2005,6 +2050,7 @@ func TestVerif(t *testing.T) {
 		tokenScenario(t, genToken(r))
 	}
 	enumUploads(t, run.Scale(4, 5))
+	enumTokens(t, run.Scale(2, 3))
 	nScripts := run.Scale(2500, 400000)
 	nPoints := run.Scale(20000, 4000000)
 	nBig := run.Scale(6, 200)
@@ -2017,7 +2063,49 @@ func TestVerif(t *testing.T) {
 	for i := 0; i < nPoints; i++ {
 		pointCaseRun(genPoint(r))
 	}
+	for _, sv := range []string{"", "0", "-0", "+0", "9223372036854775807", "9223372036854775808", "-9223372036854775808", "-9223372036854775809",
+		"18446744073709551615", "18446744073709551616", "99999999999999999999999", "-99999999999999999999999", "+", "-", "00012", "1_000", "0x1f", " 1", "1 "} {
+		parseIntCase(sv)
+	}
+	for i := 0; i < run.Scale(3000, 200000); i++ {
+		parseIntCase(genIntString(r))
+	}
 	coverageFloors(t)
+}
+
+// parseIntCase: strconv.ParseInt(s, 10, 64) as ExponentialBackoff uses it (error ignored) against the
+// model's parse_int64 -- ties the hand-written integer reader of the model to the library.
+func parseIntCase(sv string) {
+	id := run.NewID()
+	v, _ := strconv.ParseInt(sv, 10, 64)
+	run.Case(id, "I "+common.Hex(sv), strconv.FormatInt(v, 10))
+	run.Count("parse_int")
+	if v != 0 {
+		run.Count("parse_int_nonzero")
+	}
+}
+
+func genIntString(r *common.Rand) string {
+	var sb strings.Builder
+	switch r.Intn(6) {
+	case 0:
+		sb.WriteString("-")
+	case 1:
+		sb.WriteString("+")
+	}
+	n := r.Intn(6)
+	if r.Chance(1, 3) {
+		n = 17 + r.Intn(6) // around the int64 range
+	}
+	for i := 0; i < n; i++ {
+		sb.WriteByte(byte('0' + r.Intn(10)))
+	}
+	if r.Chance(1, 5) {
+		s := sb.String()
+		pos := r.Intn(len(s) + 1)
+		return s[:pos] + common.Pick(r, []string{" ", "_", "x", ".", "-", "+", "e3", "٣", "\x00"}) + s[pos:]
+	}
+	return sb.String()
 }
 
 // coverageFloors: a run in which a stream produced (almost) nothing is a failure of the
@@ -2032,7 +2120,7 @@ func coverageFloors(t *testing.T) {
 		"enumerated": 1000, "enumerated_cancel_instants": 500, "enumerated_uploads": 1000, "enumerated_manifest": 20,
 		"point_BD": 500, "point_BP": 3000, "point_DP": 1000, "point_seen_W": 2000, "point_seen_FAIL": 100,
 		"real_transport": 4, "real_transport_complete_bodies": 2, "token_scenarios": 100, "oracle_only_default_policy": 100,
-		"token_attempts_2": 20,
+		"token_attempts_2": 20, "parse_int": 2000, "parse_int_nonzero": 1000, "enumerated_tokens": 300,
 	}
 	var low []string
 	for k, min := range floors {
